@@ -527,18 +527,29 @@ func c16PrefixSums(r *core.Report) {
 	var rsFound *ast.RangeStmt
 	ast.Inspect(f.Body, func(n ast.Node) bool {
 		rs, ok := n.(*ast.RangeStmt)
-		if !ok || core.ObjOf(info, rs.X) != types.Object(sizes) || rs.Key == nil || rs.Value == nil {
+		if !ok || core.ObjOf(info, rs.X) != types.Object(sizes) || rs.Value == nil {
 			return true
 		}
 		rsFound = rs
-		key, val := core.ObjOf(info, rs.Key), core.ObjOf(info, rs.Value)
+		var key types.Object
+		if rs.Key != nil {
+			key = core.ObjOf(info, rs.Key)
+		}
+		val := core.ObjOf(info, rs.Value)
 		for _, st := range rs.Body.List {
 			as, ok := st.(*ast.AssignStmt)
 			if !ok || len(as.Lhs) != 1 || len(as.Rhs) != 1 {
 				continue
 			}
-			if ix, ok := core.Unparen(as.Lhs[0]).(*ast.IndexExpr); ok && as.Tok == token.ASSIGN && core.ObjOf(info, ix.Index) == key {
+			if ix, ok := core.Unparen(as.Lhs[0]).(*ast.IndexExpr); ok && as.Tok == token.ASSIGN && key != nil && core.ObjOf(info, ix.Index) == key {
 				if o := core.ObjOf(info, as.Rhs[0]); o != nil {
+					total = o
+					store = g.NodeOf(as.Pos())
+				}
+			}
+			// offsets = append(offsets, total): the i-th append is the i-th offset
+			if c, ok := core.Unparen(as.Rhs[0]).(*ast.CallExpr); ok && core.BuiltinName(info, c) == "append" && len(c.Args) == 2 && core.ObjOf(info, c.Args[0]) == core.ObjOf(info, as.Lhs[0]) {
+				if o := core.ObjOf(info, c.Args[1]); o != nil {
 					total = o
 					store = g.NodeOf(as.Pos())
 				}
